@@ -271,6 +271,27 @@ def run(tier):
     rep.bounds["constructors"] = len(ents)
     for sh in common.pmap_shards(_worker_ctor, [n for n, _t in ents], order_seed=rep.seed):
         rep.merge(sh)
+    # many frame locals: ABI values inside plain and ABI-returning subroutines around the 128-cell frame limit
+    from . import c10
+    nfl = 0
+    for n in (126, 127, 128, 129, 130, 200):
+        for placement in ("sub", "abisub"):
+            for cfg in (rb.Cfg(8, "A"), rb.Cfg(10, "A"), rb.Cfg(8, "A", frame_pointers=False)):
+                case = {"n": n, "req": "none", "placement": placement, "kind": "abi", "cfg": cfg.to_json()}
+                try:
+                    text = rb.compile_cfg(c10.build_case(case)[0], cfg)
+                except drive.PT_ERRORS:
+                    rep.add("frame_locals_pterr")
+                    continue
+                issues, p = legality(text, cfg)
+                nfl += 1
+                rep.add("traces_validated")
+                rep.add("instructions_checked", len(p.instrs))
+                if issues:
+                    out_ = _new_out()
+                    _report(out_, issues, text if len(text) < 20000 else text[:20000], cfg, "frame-locals", n, {"frame_locals": case})
+                    rep.merge(out_)
+    rep.bounds["frame_local_programs"] = nfl
     ritems = router_items(tier)
     rep.bounds["routers"] = len(ritems)
     for sh in common.pmap_shards(_worker_routers, ritems, order_seed=rep.seed):
@@ -286,7 +307,10 @@ def run(tier):
 def replay(case):
     cfg = rb.Cfg.from_json(case["cfg"])
     c = case["case"]
-    if "router" in c:
+    if "frame_locals" in c:
+        from . import c10
+        text = rb.compile_cfg(c10.build_case(c["frame_locals"])[0], cfg)
+    elif "router" in c:
         from . import c08
         texts = c08.programs_for(c["router"], cfg.version)
         text = texts[0] if c["program"] == "approval" else texts[1]
